@@ -209,7 +209,13 @@ def fmt_num(x, style):
 ALL_ELEMENTS = ("H", "He", "Li", "Ne")
 
 
-def nwchem_text(pre_lines, gap, lead, style, elements=ALL_ELEMENTS, comments=True, blank_between=False):
+def _noise(lines, noise, k, nprim, comment):
+    """layout noise inside a shell: after primitive row `pos` (when another row follows) a blank or a comment line"""
+    if noise is not None and k == noise[1] and k + 1 < nprim:
+        lines.append("" if noise[0] == "blank" else comment)
+
+
+def nwchem_text(pre_lines, gap, lead, style, elements=ALL_ELEMENTS, comments=True, blank_between=False, noise=None):
     lines = list(pre_lines)
     for el in elements:
         for letters, exps, cols in SHELLS[el]:
@@ -218,6 +224,7 @@ def nwchem_text(pre_lines, gap, lead, style, elements=ALL_ELEMENTS, comments=Tru
             lines.append(" " * lead + el + " " * gap + letters)
             for k, e in enumerate(exps):
                 lines.append(" " * (lead + 2) + fmt_num(e, style) + "".join(" " * gap + fmt_num(c[k], style) for c in cols))
+                _noise(lines, noise, k, len(exps), "# comment inside a shell")
             if blank_between:
                 lines.append("")
     lines.append("END")
@@ -238,7 +245,7 @@ def expected_nwchem(elements=ALL_ELEMENTS):
     return out
 
 
-def gbs_text(pre_lines, gap, lead, style, elements=ALL_ELEMENTS):
+def gbs_text(pre_lines, gap, lead, style, elements=ALL_ELEMENTS, noise=None):
     lines = list(pre_lines)
     for el in elements:
         lines.append(" " * lead + el + " " * gap + "0")
@@ -249,10 +256,12 @@ def gbs_text(pre_lines, gap, lead, style, elements=ALL_ELEMENTS):
                     lines.append(letters + " " * gap + str(len(exps)) + " " * gap + "1.00")
                     for k, e in enumerate(exps):
                         lines.append(" " * 6 + fmt_num(e, style) + " " * gap + fmt_num(col[k], style))
+                        _noise(lines, noise, k, len(exps), "! comment inside a shell")
             else:
                 lines.append(letters + " " * gap + str(len(exps)) + " " * gap + "1.00")
                 for k, e in enumerate(exps):
                     lines.append(" " * 6 + fmt_num(e, style) + "".join(" " * gap + fmt_num(c[k], style) for c in cols))
+                    _noise(lines, noise, k, len(exps), "! comment inside a shell")
         lines.append("****")
     return "\n".join(lines) + "\n"
 
@@ -307,10 +316,11 @@ class Skeleton(Case):
 
         p = self.params
         if p["fmt"] == "nwchem":
-            text = nwchem_text(PRE[p["pre"]], p["gap"], p["lead"], p["style"], comments=p.get("comments", True), blank_between=p.get("blank", False))
+            text = nwchem_text(PRE[p["pre"]], p["gap"], p["lead"], p["style"], comments=p.get("comments", True), blank_between=p.get("blank", False),
+                               noise=p.get("noise"))
             fn, want = parse_nwchem, expected_nwchem()
         else:
-            text = gbs_text(PRE_GBS[p["pre"]], p["gap"], p["lead"], p["style"])
+            text = gbs_text(PRE_GBS[p["pre"]], p["gap"], p["lead"], p["style"], noise=p.get("noise"))
             fn, want = parse_gbs, expected_gbs()
         with tempfile.NamedTemporaryFile("w", suffix=".basis", delete=False) as fh:
             fh.write(text)
@@ -400,6 +410,11 @@ def cases(tier, seed=0):
             out.append(Skeleton(fmt=fmt, pre="many", gap=gap, lead=lead, style=style))
     out.append(Skeleton(fmt="nwchem", pre="many", gap=2, lead=0, style="E", comments=False))
     out.append(Skeleton(fmt="nwchem", pre="many", gap=2, lead=0, style="D", blank=True))
+    # a blank or a comment line between the primitive rows of a shell
+    for fmt in ("nwchem", "gbs"):
+        for kind in ("blank", "comment"):
+            for pos in (0, 1):
+                out.append(Skeleton(fmt=fmt, pre="one", gap=2, lead=0, style="E", noise=[kind, pos]))
     out.append(Pyscf(cart=True))
     out.append(Pyscf(cart=False))
     return out
